@@ -275,7 +275,38 @@ def structural(rep, prog):
     if not shape_ok:
         opaque = [m for m in got if any(x.startswith("?") for x in m)]
         if opaque:
-            raise common.Infra("C19.s2: float sample is computed through constructs the polynomial normal form cannot see (%s); rule needs re-confirmation" % opaque[:2])
+            # not an affine polynomial: extract the formula by symbolic interpretation (unit + 1 = F in [1, 2)) and look for a
+            # range and a unit value that take the sample outside [start, end]; without one the rule cannot decide
+            from . import symalg as S2, absint as A2
+            RNG = "core::ops::range::Range"
+            it2 = S2.interp(prog, models={"Xorshift64::next_bits": lambda *_a: S2.sym("bits"), "f32>::from_bits": lambda *_a: S2.sym("F"),
+                                          "f32>::min": S2._opaque("fmin"), "f32>::max": S2._opaque("fmax"), "f32>::clamp": S2._opaque("fclamp")})
+            me = ("adt", "retrofire_core::math::rand::Uniform", "Uniform", [("adt", RNG, "Range", [S2.sym("S"), S2.sym("E")])])
+            try:
+                val = A2.deref_all(it2, it2.call_body(uf, [S2.ref_to(me), A2.UNKNOWN]))
+            except (A2.Undecided, A2.Panic) as e:
+                raise common.Infra("C19.s2: float sample is computed through constructs the rule cannot interpret (%s)" % e)
+            wit = None
+            try:
+                for lo, hi in ((0.0, 1.0), (-1.0, 1.0), (0.0, 1e-8), (5.0, 5.000001), (100.0, 101.0), (-3.0, -2.9999999), (-1e-9, 1e-9), (1000.0, 1e6)):
+                    for f in (1.0, 1.5, 2.0 - 2.0 ** -23):
+                        v = S2.num_eval(val, {"S": lo, "E": hi, "F": f})
+                        if not (lo <= v <= hi):
+                            wit = (lo, hi, f - 1.0, v)
+                            break
+                    if wit:
+                        break
+            except S2.NotNumeric as e:
+                raise common.Infra("C19.s2: float sample has a form the rule cannot evaluate (%s)" % e)
+            if wit is None:
+                raise common.Infra("C19.s2: float sample is computed through constructs the polynomial normal form cannot see (%s) and no range takes it outside [start, end]; "
+                                   "rule needs re-confirmation" % opaque[:1])
+            rep.violate("C19.s2", "s2|range-witness", uf.where(),
+                        "Uniform<f32>::sample leaves its range: for start = %r, end = %r and unit value %r the extracted formula gives %r" % wit, config=cfg)
+            opaque = None
+    if not shape_ok and opaque is None:
+        pass
+    elif not shape_ok:
         rep.violate("C19.s2", "s2|affine", uf.where(), "float sample is not the affine map unit*(end-start)+start of unit = from_bits(..) - 1.0 (got polynomial %s)" % got, config=cfg)
 
     # ---- s6 integer sample: start + rem_euclid(bits, end - start)
